@@ -12,6 +12,19 @@ Law / model monitors driven by the workload:
   floor(clip(min(s*t*prnu + dark*dcnu + bias, fwc)/gain, 0, 2^bits-1)); DN is non-decreasing along a sorted ramp that
   crosses full well and the ADC ceiling; block-sum / repeat reference models for bindown / tile; the two adjoint pairs;
   recomposite(decomposite(m)) == m.
+Hardening pass 3 (classes G / H / I):
+  expose.scale-law        the same exposure in other units (electron unit x 1e-9 .. 1e9: signal, dark current, bias, full well and gain scale
+                          together, down to full wells far below one electron; time unit x 1e-9 .. 1e9) against the model and the unscaled twin
+  expose.prnu-wide        photo-response maps with entries 0.01 .. 3 under 4x .. 1000x over-exposure (a dim pixel keeps responding until ITS
+                          charge reaches full well)
+  expose.special-values   exact coincidences in exact arithmetic (gain / exposure time powers of two, gain exactly 1 first; bias 0 or a multiple
+                          of the gain; full well exactly at ADC full scale and one / half an LSB either side; bits 1, 8, 16, 24, 25, 32; pixels
+                          exactly at 0, half an LSB, the full well, ADC full scale (+ 1 LSB)): DN == floor(clip(min(x, fwc)/gain, 0, 2^bits-1)) exactly
+  expose.frames           every frame count 1 .. 8 (thorough 16) x image shapes whose rows / columns equal the frame count, 1 x N, N x 1
+  bin.structural          bindown / tile with the factor on an axis exactly 1, exactly the axis length, a proper divisor (axis lengths 1 .. 64, a few
+                          >= 500), data scaled by 2^-40 .. 2^40 (block sums / means / repeats are s x the reference of the unscaled data)
+  bayer.scale-law         mosaics scaled by 2^-40 .. 2^40 and 1e-12 .. 1e12, shapes 2 x 2 .. >= 500 per axis: round trip, demosaic linear, flat
+                          field preserved, white-balance gains 1e-9 .. 1e9, safe white balance invariant under a common rescaling
 """
 import contextlib
 import itertools
@@ -42,6 +55,12 @@ RULE = ('expose: every bit depth 1..32 x exposure classes (sorted ramp crossing 
         'tuple / list / ndarray / sequences of numpy ints, mode strings in every accepted spelling and letter case, omitted mode / '
         'scaling after an explicit other value, keyword calls; cfa in any letter case and omitted after the other layout, keyword / '
         'positional Bayer calls, white-balance gains and saturation levels as int / numpy scalars / list / tuple / ndarray; '
+        'MAGNITUDES (class G): ramp / dark+dcnu / prnu exposures of bits {1, 8, 10, 12, 16, 24, 25, 32} (thorough 1..32) re-expressed with the '
+        'electron unit x {1e-9 .. 1e9} and the time unit x {1e-9 .. 1e9}; prnu maps 0.01 .. 3 with 4x .. 1000x over-exposure; bindown / tile data and '
+        'Bayer mosaics x 2^-40 .. 2^40 / 1e-12 .. 1e12, white-balance gains 1e-9 .. 1e9; SPECIAL VALUES (class H): bits {1, 8, 16, 24, 25, 32, ..} x gain '
+        '{1, 2, 0.5, 0.25, 4} x full well {ADC full scale, +1 LSB, +-half LSB, above, below} x exact pixel values, exact arithmetic; STRUCTURE '
+        '(class I): frames 1..8 (thorough 16) x shapes with rows / cols == frames; bin factors 1 / axis length / divisor for axis lengths 1..64 '
+        '(+ 500, 512, 997, 1000), 1-D, all 2-D pairs, sampled 3-D; Bayer shapes 2x2, 2xN, Nx2, >= 500 per axis; '
         'non-trivial = array has >= 2 samples; distinct = distinct descriptor')
 ASSUMPTIONS = ['noise-free reference: floor(clip(min(s*t*prnu + dark*t*dcnu*prnu + bias, fwc)/gain, 0, 2^bits-1)); cases with a prnu '
                'map use zero dark current so that it does not matter whether prnu also scales the dark signal',
@@ -53,6 +72,12 @@ ASSUMPTIONS = ['noise-free reference: floor(clip(min(s*t*prnu + dark*t*dcnu*prnu
                'the backend shim swap only replaces random.poisson (returns its mean) and random.normal (returns loc)',
                'aerial images are 2-D and non-negative; dcnu/prnu maps have the image shape (prnu also flat 1-D as the code accepts)',
                'white balance: only "each colour is scaled by one constant, safe mode applies one common limiter" is demanded',
+               'unit invariance: DN depends only on (signal x time + dark x time + bias) / gain and fwc / gain, so rescaling the electron unit '
+               '(signal, dark, bias, fwc, gain together) or the time unit (time up, rates down) must not change it; compared with the unscaled twin only '
+               'where the reference says the real-valued DN is not within 1e-9 relative of an integer',
+               'exact arithmetic (special values): gain and exposure time powers of two and dyadic pixel values make every product / quotient of the '
+               'model exact in binary64, so no boundary allowance applies there; float64 images under precision 64 only',
+               'bindown / tile / Bayer demosaicking are linear: scaling the data by a power of two is exact, by a decade to 1e-12 relative',
                'argument forms: the tables in the module (SCALAR_FORMS, BITS_FORMS, FRAME_FORMS, PRNU_FORMS, DCNU_FORMS, FACTOR_FORMS, '
                'BIN_MODES, TILE_SCALINGS, CFA_ANYCASE) list the forms the current tree accepts and treats as the same input; forms for '
                'which it raises (dcnu as a list, float / 0-d factors, upper-case tile scaling, upper-case cfa in decomposite_bayer / '
@@ -61,7 +86,8 @@ REQUIRED = ['expose.contract', 'expose.noise-free-model', 'expose.monotonic', 'b
             'tile.reference', 'tile.contract', 'adjoint.pairs', 'bayer.decomposite', 'bayer.recomposite', 'bayer.composite',
             'bayer.roundtrip', 'bayer.malvar', 'bayer.deinterlace', 'wb.prescale', 'wb.postscale',
             'expose.history', 'expose.repeat', 'expose.saturated-real-rng', 'expose->bindown', 'bindown.integer-containers',
-            'forms.expose', 'forms.bindown', 'forms.tile', 'forms.bayer']
+            'forms.expose', 'forms.bindown', 'forms.tile', 'forms.bayer',
+            'expose.scale-law', 'expose.prnu-wide', 'expose.special-values', 'expose.frames', 'bin.structural', 'bayer.scale-law']
 
 CTX = None
 ADC_KEY = 'C16/expose/adc-ceiling-2^bits'
@@ -1635,6 +1661,494 @@ def forms_workload(ctx):
              'PRNU_FORMS, DCNU_FORMS, FACTOR_FORMS, BIN_MODES, TILE_SCALINGS, CFA_ANYCASE), one argument at a time off its canonical form')
 
 
+# ------------------------------------------------------------------------------------------ magnitudes / special values / sizes
+# (hardening pass 3: classes G, H, I)
+DECADES = [1e-9, 1e-6, 1e-3, 1.0, 1e3, 1e6, 1e9]
+
+
+def regime(s):
+    return 'tiny' if s < 1e-2 else 'huge' if s > 1e2 else 'unit'
+
+
+def _nf_run(p, img, frames, prnu=None, dcnu=None, delta=1e-12, monotonic=False, prec=64):
+    """One noise-free exposure by a fresh Detector(**p) -> (out or None, bad?) judged against the reference model."""
+    from prysm import detector
+    det = detector.Detector(dark_current=p['dark'], read_noise=0.0, bias=p['bias'], fwc=p['fwc'], conversion_gain=p['gain'], bits=p['bits'],
+                            exposure_time=p['t'], prnu=prnu, dcnu=dcnu)
+    lo, hi, v, x = ref.expose_ref(np.asarray(img, dtype=float), p['t'], p['dark'], p['bias'], p['fwc'], p['gain'], p['bits'], prnu=prnu, dcnu=dcnu,
+                                  delta=delta)
+    with precision(prec), noise_free():
+        o = np.asarray(det.expose(img, frames=frames))
+    if o.size != frames * np.size(img):
+        return o, True
+    oi = o.reshape((frames,) + tuple(np.shape(img))).astype(np.int64)
+    bad = not bool(((oi >= lo[None]) & (oi <= hi[None])).all())
+    if monotonic and (np.diff(v.ravel()) >= 0).all():
+        bad = bad or bool((np.diff(oi.reshape(frames, -1), axis=1) < 0).any())
+    return o, bad
+
+
+def scaled_params(p, s, tau):
+    """The same exposure in other units: electrons counted in units of 1/s (signal, dark, bias, full well and gain all scale by s),
+    time in units of 1/tau (exposure time scales by tau, the rates by 1/tau).  The DN must not change."""
+    return {'bits': p['bits'], 'gain': p['gain'] * s, 'bias': p['bias'] * s, 'fwc': p['fwc'] * s, 't': p['t'] * tau, 'dark': p['dark'] * s / tau}
+
+
+def expose_magnitudes(ctx):
+    """Class G.  (a) unit-rescaled twins of the ramp / dark / prnu exposure classes: the electron unit scaled by 1e-9 .. 1e9
+    (fractional electrons: full wells and signals far below one electron; huge: 1e15 e-) and the time unit by 1e-9 .. 1e9, judged
+    by the noise-free model of the scaled parameters and against the DN of the unscaled twin; (b) wide photo-response maps
+    (entries 0.01 .. 3) under 4x .. 1000x over-exposure: a dim pixel must keep responding until ITS charge reaches full well."""
+    bits_list = ctx.pick([1, 8, 10, 12, 16, 24, 25, 32], list(range(1, 33)))
+    reps = ctx.pick(2, 240)
+    k = -1
+    for rep in range(reps):
+        for bits in bits_list:
+            for si, s in enumerate(DECADES):
+                for cls in ('ramp/fwc-above-adc', 'ramp/fwc-below-adc', 'dark+dcnu', 'prnu-2d'):
+                    k += 1
+                    if not ctx.mine(k):
+                        continue
+                    rng = np.random.default_rng([ctx.seed, 16900, k])
+                    tau = DECADES[(si + rep + bits + k // 7) % len(DECADES)]
+                    if s == 1.0 and tau == 1.0:
+                        tau = 1e-6
+                    imgdt, prec = EXPOSE_CFGS[(rep + si) % 4] if k % 3 == 0 else EXPOSE_CFGS[0]
+                    cap = 2 ** bits - 1
+                    gain = float(10 ** rng.uniform(-1, np.log10(50)))
+                    t = float(10 ** rng.uniform(-1, 1))
+                    sat_e = cap * gain
+                    bias = float(rng.uniform(0, 0.2) * sat_e)
+                    fwc = sat_e * float(rng.uniform(3, 100)) + 1e3 + bias
+                    if cls == 'ramp/fwc-below-adc':
+                        fwc = bias + max(sat_e - bias, gain) * float(rng.uniform(0.2, 0.9))
+                    shape = [(2, 4), (3, 3), (4, 4), (1, 6), (5, 1)][int(rng.integers(5))]
+                    n = shape[0] * shape[1]
+                    s_sat = max(min(fwc, sat_e) - bias, gain) / t
+                    frames = 1 + (k // 5) % 3
+                    dark, dcnu, prnu = 0.0, None, None
+                    if cls.startswith('ramp'):
+                        vals = [0.0, 0.5 * s_sat, (cap * gain - bias) / t, ((cap + 1) * gain - bias) / t * 1.5, 100 * s_sat, (fwc - bias) / t]
+                        vals = [max(0.0, float(q)) for q in vals][:n]
+                        img = np.sort(np.array(vals + list(rng.uniform(0, 1.3, n - len(vals)) * s_sat))).reshape(shape)
+                    else:
+                        img = rng.uniform(0, 2.0, shape) * s_sat
+                        img.flat[0] = 0.0
+                    if cls == 'dark+dcnu':
+                        dark = float(rng.uniform(0, 0.3) * s_sat)
+                        dcnu = rng.uniform(0.5, 1.5, shape)
+                    if cls == 'prnu-2d':
+                        prnu = rng.uniform(0.8, 1.2, shape)
+                    p0 = {'bits': bits, 'gain': gain, 'bias': bias, 'fwc': fwc, 't': t, 'dark': dark}
+                    p1 = scaled_params(p0, s, tau)
+                    img1 = img * (s / tau)
+                    if imgdt == 'float32':
+                        img1 = img1.astype(np.float32)
+                        dcnu = None if dcnu is None else dcnu.astype(np.float32)
+                        prnu = None if prnu is None else prnu.astype(np.float32)
+                    low = prec == 32 or imgdt == 'float32'
+                    delta = LOW_DELTA if low else 1e-11
+                    mono = cls.startswith('ramp')
+                    desc = {'wl': 'expose-magnitudes', 'bits': bits, 'cls': cls, 'electron_unit': s, 'time_unit': tau, 'gain': p1['gain'], 'bias': p1['bias'],
+                            'fwc': p1['fwc'], 't': p1['t'], 'dark': p1['dark'], 'frames': frames, 'shape': list(shape), 'img_dtype': imgdt, 'precision': prec,
+                            'class': f'expose-scale:{cls}:electrons-{regime(s)}:time-{regime(tau)}:bits={bits}'}
+                    ctx.case(desc, nontrivial=n >= 2)
+                    out = bad = None
+
+                    def label(p0=p0, img=img, s=s, tau=tau, frames=frames, prnu=prnu, dcnu=dcnu, mono=mono, imgdt=imgdt, prec=prec, delta=delta, img1=img1):
+                        """key of a failure (only called on one): the unscaled twin in the SAME configuration fails too -> the ordinary model key
+                        (with the configuration label when it is configuration specific); else the unit change that alone reproduces it"""
+                        cast = (lambda a: a.astype(np.float32)) if imgdt == 'float32' else (lambda a: a)
+                        try:
+                            with quiet():
+                                if _nf_run(p0, cast(img), frames, prnu, dcnu, delta, mono, prec)[1]:
+                                    with precision(prec):
+                                        return cfg_key('C16/expose/noise-free-model', img1)
+                                if s != 1.0 and _nf_run(scaled_params(p0, s, 1.0), cast(img * s), frames, prnu, dcnu, delta, mono, prec)[1]:
+                                    return f'C16/expose/scale:electrons-{regime(s)}/noise-free-model'
+                                if tau != 1.0 and _nf_run(scaled_params(p0, 1.0, tau), cast(img / tau), frames, prnu, dcnu, delta, mono, prec)[1]:
+                                    return f'C16/expose/scale:time-{regime(tau)}/noise-free-model'
+                        except Exception:  # noqa
+                            pass
+                        return f'C16/expose/scale:electrons-{regime(s)}+time-{regime(tau)}/noise-free-model'
+                    with ctx.guard('C16/expose/scale', desc):
+                        with deferred(ctx, img1, lambda: True):
+                            out, bad = _nf_run(p1, img1, frames, prnu, dcnu, delta, mono, prec)
+                        ctx.observe('expose.scale-law')
+                        if bad:
+                            ctx.violation(label(), 'noise-free exposure in rescaled units (electron unit x s, time unit x tau: '
+                                          'signal, dark current, bias, full well, gain and exposure time rescaled together) differs from '
+                                          'floor(clip(min(s*t+dark+bias, fwc)/gain, 0, 2^bits-1))', desc)
+                            continue
+                        # the unscaled twin must give the same DN wherever neither is within round-off of an integer boundary
+                        o0, bad0 = _nf_run(p0, img if imgdt == 'float64' else img.astype(np.float32), frames,
+                                           prnu, dcnu, delta, mono, prec)
+                        if not bad0:
+                            lo0, hi0, _, _ = ref.expose_ref(img, t, dark, bias, fwc, gain, bits, prnu=prnu, dcnu=dcnu, delta=max(delta, 1e-9))
+                            sure = (lo0 == hi0)[None] if frames > 1 else (lo0 == hi0)
+                            same = np.array_equal(np.asarray(out)[np.broadcast_to(sure, np.shape(out))], np.asarray(o0)[np.broadcast_to(sure, np.shape(o0))])
+                            ctx.require('expose.scale-law', same or low, f'C16/expose/scale:electrons-{regime(s)}+time-{regime(tau)}/dn-depends-on-units',
+                                        'the DN of the same exposure expressed in other units (electrons x s, seconds x tau) differ', desc)
+    # (b) wide prnu under gross over-exposure
+    k = -1
+    for rep in range(ctx.pick(6, 2000)):
+        for bits in bits_list:
+            k += 1
+            if not ctx.mine(k):
+                continue
+            rng = np.random.default_rng([ctx.seed, 16901, k])
+            cap = 2 ** bits - 1
+            gain = float(10 ** rng.uniform(-1, 1.5))
+            t = float(10 ** rng.uniform(-1, 1))
+            sat_e = cap * gain
+            bias = float(rng.uniform(0, 0.1) * sat_e)
+            below = k % 2 == 0
+            fwc = bias + max(sat_e - bias, gain) * float(rng.uniform(0.3, 0.9)) if below else sat_e * float(rng.uniform(2, 50)) + bias + 10
+            shape = [(3, 4), (4, 4), (2, 6), (1, 8)][int(rng.integers(4))]
+            n = shape[0] * shape[1]
+            prnu = 10 ** rng.uniform(-2, np.log10(3.0), shape)
+            prnu.flat[0], prnu.flat[1], prnu.flat[-1] = 0.01, 0.02, 3.0
+            # charge before the response map, in units of the full well above the bias: 0 .. 1000 x (so that prnu * over covers both sides of saturation)
+            over = 10 ** rng.uniform(-1, 3, shape)
+            over.flat[0], over.flat[1], over.flat[2] = 50.0, 30.0, 4.0 + 1e-3
+            img = over * max(fwc - bias, gain) / t
+            flat = k % 3 == 1
+            parg = prnu.ravel().copy() if flat else prnu
+            frames = 1 + k % 2
+            imgdt, prec = EXPOSE_CFGS[(k // 2) % 4] if k % 4 == 3 else EXPOSE_CFGS[0]
+            if imgdt == 'float32':
+                img, parg, prnu = img.astype(np.float32), parg.astype(np.float32), prnu.astype(np.float32)
+            low = prec == 32 or imgdt == 'float32'
+            p = {'bits': bits, 'gain': gain, 'bias': bias, 'fwc': fwc, 't': t, 'dark': 0.0}
+            desc = {'wl': 'expose-prnu-wide', 'bits': bits, 'gain': gain, 'bias': bias, 'fwc': fwc, 't': t, 'frames': frames, 'shape': list(shape),
+                    'prnu_range': [float(prnu.min()), float(prnu.max())], 'over_exposure_max': float(over.max()), 'prnu_form': 'flat' if flat else '2d',
+                    'img_dtype': imgdt, 'precision': prec, 'class': f'expose-scale:prnu-wide/over-exposed:{"fwc-below-adc" if below else "fwc-above-adc"}:bits={bits}'}
+            ctx.case(desc)
+            with ctx.guard('C16/expose/scale:prnu-wide+over-exposed', desc):
+                with deferred(ctx, img, lambda: True):
+                    out, bad = _nf_run(p, img, frames, parg, None, LOW_DELTA if low else 1e-11, False, prec)
+                ctx.observe('expose.prnu-wide')
+                if bad:
+                    # the same exposure with a mild map and without over-exposure: if that fails too it is not this regime
+                    try:
+                        with quiet():
+                            mild = _nf_run(p, np.minimum(np.asarray(img, dtype=float), 2.0 * max(fwc - bias, gain) / t), frames,
+                                           np.clip(np.asarray(prnu, dtype=float), 0.8, 1.2), None, 1e-11)[1]
+                    except Exception:  # noqa
+                        mild = False
+                    ctx.violation('C16/expose/noise-free-model' if mild else 'C16/expose/scale:prnu-wide+over-exposed/noise-free-model',
+                                  'noise-free exposure with a wide photo-response map (0.01 .. 3) under 4x .. 1000x over-exposure differs from '
+                                  'floor(clip(min(s*t*prnu+bias, fwc)/gain, 0, 2^bits-1)): a dim pixel stops responding before its own charge reaches full well, '
+                                  'or a bright one is not limited', desc)
+    ctx.note('expose_magnitudes', {'electron_units': DECADES, 'time_units': DECADES, 'bits': bits_list, 'prnu': '0.01 .. 3 with over-exposure up to 1000 x'})
+
+
+SPECIAL_BITS = [1, 8, 16, 24, 25, 32]
+SPECIAL_FWC = ['adc-full-scale', 'adc-full-scale+1lsb', 'adc-full-scale+half-lsb', 'adc-full-scale-half-lsb', 'above-adc', 'below-adc']
+
+
+def expose_specials(ctx):
+    """Class H.  Exact coincidences, in exact arithmetic: gain and exposure time powers of two (gain exactly 1 first), bias 0 or a
+    multiple of the gain, full well exactly at ADC full scale (and one / half an LSB either side), pixels exactly at 0, at half an
+    LSB, at the full well, at ADC full scale and one LSB above it.  Every product and quotient the model needs is exact in binary
+    floating point, so the noise-free DN must equal floor(clip(min(x, fwc)/gain, 0, 2^bits-1)) exactly -- no boundary allowance."""
+    bits_list = SPECIAL_BITS + ctx.pick([2, 12], [b for b in range(1, 33) if b not in SPECIAL_BITS])
+    k = -1
+    for rep in range(ctx.pick(1, 40)):
+        for bits in bits_list:
+            for gain in (1.0, 2.0, 0.5, 0.25, 4.0):
+                for fcls in SPECIAL_FWC:
+                    k += 1
+                    if not ctx.mine(k):
+                        continue
+                    rng = np.random.default_rng([ctx.seed, 16902, k])
+                    cap = 2 ** bits - 1
+                    t = [1.0, 2.0, 0.5][(k // 3) % 3] if rep or gain != 1.0 else 1.0
+                    bias = [0.0, gain, 3 * gain][(k // 2) % 3] if cap > 8 else 0.0
+                    fs = cap * gain                                       # electrons at ADC full scale
+                    if fcls == 'below-adc' and cap < 4:
+                        fcls = 'adc-full-scale'
+                    fwc = {'adc-full-scale': fs, 'adc-full-scale+1lsb': fs + gain, 'adc-full-scale+half-lsb': fs + gain / 2,
+                           'adc-full-scale-half-lsb': fs - gain / 2, 'above-adc': 4 * fs + gain / 2,
+                           'below-adc': bias + gain * (max(1, (cap - int(bias / gain)) // 2) + 0.5)}[fcls]
+                    # electrons x (dyadic, exactly representable) and what each pixel is
+                    pix = [('x=0', bias), ('x=half-lsb', bias + gain / 2), ('x=1lsb', bias + gain), ('x=fwc', fwc), ('x=fwc-half-lsb', fwc - gain / 2),
+                           ('x=fwc+half-lsb', fwc + gain / 2), ('x=adc-full-scale', fs), ('x=adc-full-scale+1lsb', fs + gain),
+                           ('x=adc-full-scale+half-lsb', fs + gain / 2), ('x=adc-full-scale-half-lsb', fs - gain / 2), ('x=2*adc-full-scale', 2 * fs + gain),
+                           ('x=mid', bias + gain * (cap // 2) + gain / 4)]
+                    pix = [(l_, x_) for l_, x_ in pix if x_ >= bias]
+                    order = np.argsort([x_ for _, x_ in pix], kind='stable')
+                    pix = [pix[i] for i in order]
+                    xs = np.array([x_ for _, x_ in pix])
+                    img = (xs - bias) / t
+                    shape = (1, len(pix)) if k % 2 else (len(pix), 1)
+                    if len(pix) % 2 == 0 and k % 4 == 0:
+                        shape = (2, len(pix) // 2)
+                    img = img.reshape(shape)
+                    integer_img = k % 5 == 0 and t == 1.0 and gain >= 1 and bool((img == np.floor(img)).all()) and img.max() < 2 ** 62
+                    imgarg = img.astype(np.int64) if integer_img else img
+                    frames = 1 + (k // 7) % 2
+                    want = np.floor(np.clip(np.minimum(xs, fwc) / gain, 0, cap)).astype(np.int64).reshape(shape)
+                    exact = bool((((xs - bias) / t) * t + bias == xs).all())        # sanity of the construction (always true for dyadic values)
+                    desc = {'wl': 'expose-special', 'bits': bits, 'gain': gain, 't': t, 'bias': bias, 'fwc': fwc, 'fwc_class': fcls, 'frames': frames,
+                            'shape': list(shape), 'img_dtype': str(imgarg.dtype), 'class': f'expose-special:{fcls}:gain={gain}:bits={bits}'}
+                    ctx.case(desc)
+                    if not exact:
+                        ctx.skip('expose-special: construction not exact in binary floating point')
+                        continue
+                    p = {'bits': bits, 'gain': gain, 'bias': bias, 'fwc': fwc, 't': t, 'dark': 0.0}
+                    with ctx.guard('C16/expose/special', desc):
+                        with deferred(ctx, imgarg, lambda: True):
+                            out, bad = _nf_run(p, imgarg, frames, None, None, 1e-12, True)
+                        ctx.observe('expose.special-values')
+                        if bad:
+                            # outside even the boundary allowance: the ordinary model key unless only the special values show it
+                            r2 = np.random.default_rng(k)
+                            try:
+                                with quiet():
+                                    generic = _nf_run(dict(p, gain=gain * 1.37, fwc=fwc * 1.11 + 0.3, bias=bias + 0.21),
+                                                      np.sort(r2.uniform(0, 3 * fs / t + 1, 12)).reshape(3, 4), frames, None, None, 1e-12, True)[1]
+                            except Exception:  # noqa
+                                generic = False
+                            ctx.violation('C16/expose/noise-free-model' if generic else f'C16/expose/special:fwc={fcls}/noise-free-model',
+                                          'noise-free exposure at exact coincidences (gain / time powers of two, full well at ADC full scale +- an LSB, pixels '
+                                          'exactly at 0 / full well / ADC full scale) differs from the model by more than the boundary allowance', desc)
+                            continue
+                        o = np.asarray(out).reshape((frames,) + shape).astype(np.int64)
+                        neq = (o != want[None])
+                        if neq.any():
+                            i = int(np.argmax(neq.any(axis=0).ravel()))
+                            ctx.violation(f'C16/expose/special:{pix[i][0]}/exact-dn', f'with exact arithmetic (gain, exposure time powers of two) the pixel {pix[i][0]} '
+                                          'does not read floor(clip(min(x, fwc)/gain, 0, 2^bits-1))', desc, got=int(o[0].ravel()[i]), want=int(want.ravel()[i]),
+                                          pixel=pix[i][0])
+    ctx.note('expose_specials', {'bits': bits_list, 'gain': [1.0, 2.0, 0.5, 0.25, 4.0], 'fwc': SPECIAL_FWC})
+
+
+def expose_frames(ctx):
+    """Class I.  Every frame count 1 .. 8 (thorough .. 16) with image shapes whose rows / columns equal the frame count (a (3, 3, 3)
+    stack is ambiguous with a transposed one), 1 x N and N x 1 lines: noise-free stacks judged by the model frame by frame, all
+    frames of one noise-free stack equal, the documented shape (contract), and noisy stacks through the range contract."""
+    from prysm import detector
+    k = -1
+    for frames in range(1, ctx.pick(8, 16) + 1):
+        for shape in [(frames, frames), (frames, 5), (4, frames), (1, max(frames, 2)), (max(frames, 2), 1), (2, 2), (3, 3), (8, 8), (frames + 1, frames)]:
+            for cls in ('ramp', 'dark+dcnu', 'prnu-flat', 'prnu-2d', 'noisy'):
+                k += 1
+                if not ctx.mine(k):
+                    continue
+                rng = np.random.default_rng([ctx.seed, 16903, k])
+                bits = int([8, 12, 16, 24, 1, 32][k % 6])
+                cap = 2 ** bits - 1
+                gain = float(10 ** rng.uniform(-0.5, 1))
+                bias = float(rng.uniform(0, 0.1) * cap * gain)
+                fwc = cap * gain * float(rng.uniform(2, 9)) + 10 if k % 2 else bias + max(cap * gain - bias, gain) * 0.7
+                t = float(10 ** rng.uniform(-1, 0.5))
+                n = shape[0] * shape[1]
+                s_sat = max(min(fwc, cap * gain) - bias, gain) / t
+                img = np.sort(rng.uniform(0, 2.5, n)).reshape(shape) * s_sat
+                img.flat[0] = 0.0
+                dark, dcnu, prnu = 0.0, None, None
+                if cls == 'dark+dcnu':
+                    dark, dcnu = float(rng.uniform(0, 0.2) * s_sat), rng.uniform(0.5, 1.5, shape)
+                if cls == 'prnu-flat':
+                    prnu = rng.uniform(0.7, 1.3, n)
+                if cls == 'prnu-2d':
+                    prnu = rng.uniform(0.7, 1.3, shape)
+                scls = 'frames=1' if frames == 1 else 'frames=rows=cols' if shape == (frames, frames) else 'frames=rows' if shape[0] == frames else \
+                    'frames=cols' if shape[1] == frames else 'frames>1'
+                desc = {'wl': 'expose-frames', 'frames': frames, 'shape': list(shape), 'cls': cls, 'bits': bits, 'gain': gain, 'bias': bias, 'fwc': fwc, 't': t,
+                        'dark': dark, 'class': f'expose-frames:{cls}:{scls}'}
+                ctx.case(desc, nontrivial=n >= 2)
+                p = {'bits': bits, 'gain': gain, 'bias': bias, 'fwc': fwc, 't': t, 'dark': dark}
+                farg = [frames, np.int64(frames)][k % 2]
+                with ctx.guard(f'C16/expose/size:{scls}', desc):
+                    if cls == 'noisy':
+                        det = detector.Detector(dark_current=0.01 * s_sat, read_noise=3 * gain, bias=bias, fwc=fwc, conversion_gain=gain, bits=bits, exposure_time=t)
+                        with seeded_numpy(int(rng.integers(2 ** 31 - 1))):
+                            det.expose(img * 0.4, farg) if k % 4 < 2 else det.expose(img * 0.4, frames=farg)     # the contract decides
+                        ctx.observe('expose.frames')
+                        continue
+                    with deferred(ctx, img, lambda: True):
+                        out, bad = _nf_run(p, img, farg, prnu, dcnu, 1e-12, cls == 'ramp')
+                    ctx.observe('expose.frames')
+                    if bad:
+                        try:
+                            with quiet():
+                                one = _nf_run(p, np.sort(img.ravel()).reshape(1, -1) if n > 1 else img, 1, None if prnu is None else np.ravel(prnu),
+                                              None if dcnu is None else dcnu.reshape(1, -1), 1e-12)[1]
+                        except Exception:  # noqa
+                            one = False
+                        ctx.violation('C16/expose/noise-free-model' if one else f'C16/expose/size:{scls}/noise-free-model',
+                                      f'noise-free stack of {frames} frames of a {shape} image differs from the model (frame count vs image shape)', desc)
+                        continue
+                    o = np.asarray(out).reshape((frames,) + shape)
+                    ctx.require('expose.frames', bool((o == o[:1]).all()), f'C16/expose/size:{scls}/frames-differ',
+                                'the frames of one noise-free stack are not all equal', desc)
+    ctx.note('expose_frames', f'frame counts 1..{ctx.pick(8, 16)} x shapes with rows / columns equal to the frame count x 5 exposure classes')
+
+
+def bin_structural(ctx):
+    """Classes I and G for bindown / tile.  Structure: every axis length L in a table (1 .. 64, thorough also 128, 500, 512, 997) with the
+    factor on that axis exactly 1, exactly L (the axis collapses to one sample) and a proper divisor, in 1-D, all pairs in 2-D, sampled
+    in 3-D; tile with factor 1 and large factors.  Magnitude: the data are integer-valued samples times s, s = 1e-12 .. 1e12 (powers of
+    two near those decades, so the scaling is exact): block sums / means / repeats must be s times the reference of the unscaled data."""
+    from prysm import detector
+    lengths = [1, 2, 3, 4, 6, 7, 8, 12, 13, 16, 64] + ctx.pick([], [128, 500, 512, 997])
+    s_list = [2.0 ** e for e in (-40, -30, -20, -10, 0, 10, 20, 30, 40)]          # 9e-13 .. 1.1e12
+
+    def facs(L):
+        out = [1, L]
+        d = next((q for q in range(2, L) if L % q == 0), None)
+        if d:
+            out += [d, L // d] if L // d != d else [d]
+        return list(dict.fromkeys(out))
+    cases = [((L,), (f,)) for L in lengths for f in facs(L)]
+    cases += [((a, b), (fa, fb)) for a in lengths for b in lengths if a * b <= ctx.pick(4096, 70000) for fa in facs(a) for fb in facs(b)]
+    rs = np.random.default_rng([ctx.seed, 16904])
+    small = [L for L in lengths if L <= 16]
+    for _ in range(ctx.pick(150, 30000)):
+        sh = tuple(int(small[int(i)]) for i in rs.integers(0, len(small), 3))
+        cases.append((sh, tuple(int(facs(L)[int(rs.integers(len(facs(L))))]) for L in sh)))
+    if ctx.quick:
+        cases += [((500, 6), (500, 1)), ((4, 512), (1, 512)), ((997,), (997,)), ((1000,), (8,))]      # a few sizes >= 500
+    for k, (shape, f) in enumerate(cases):
+        if not ctx.mine(k):
+            continue
+        rng = np.random.default_rng([ctx.seed, 16905, k])
+        s = s_list[k % len(s_list)]
+        dt = 'float32' if k % 7 == 3 else 'float64'
+        x0 = rng.integers(-50, 200, shape).astype(float)
+        x = (x0 * s).astype(dt)
+        o = tuple(a // b for a, b in zip(shape, f))
+        nblk = int(np.prod(f))
+        y0 = rng.integers(-20, 50, o).astype(float)
+        y = (y0 * s).astype(dt)
+        fcls = 'factor=1' if all(q == 1 for q in f) else 'factor=axis-length' if all(q in (1, L) for q, L in zip(f, shape)) else 'factor=divisor'
+        reg = regime(s)
+        desc = {'wl': 'bin-structural', 'shape': list(shape), 'factor': list(f), 'scale': s, 'dtype': dt, 'k': k,
+                'class': f'bin-struct:{len(shape)}d:{fcls}:scale-{reg}:{dt}'}
+        ctx.case(desc, nontrivial=x.size >= 2)
+        farg = f if k % 3 else (list(f) if len(set(f)) > 1 or k % 2 else f[0])
+        rt = LOW_BIN if dt == 'float32' else 1e-12
+
+        def key(base, tag, x0=x0, y0=y0, farg=farg, f=f, nblk=nblk):
+            """plain key when the unscaled double twin fails as well, else the size / scale label of the case"""
+            if base in ctx.violations:
+                return base
+            try:
+                with quiet():
+                    ok = (np.array_equal(detector.bindown(x0, farg, 'sum'), ref.bin_sum_ref(x0, f))
+                          and np.array_equal(detector.tile(y0, farg, 'avg'), ref.tile_ref(y0, f)))
+                part = f'size:{fcls}' if not ok else f'scale:{reg}'
+                if not ok and fcls == 'factor=divisor' and len(shape) <= 2 and max(shape) < 64:
+                    return base
+            except Exception:  # noqa
+                part = f'size:{fcls}'
+            head, tail = base.rsplit('/', 1)
+            return f'{head}/{part}/{tail}'
+        with ctx.guard('C16/bindown-tile/structural', desc):
+            want = ref.bin_sum_ref(x0, f) * s
+            sc = float(np.abs(want).max()) if want.size else 0.0
+            ctx.observe('bin.structural')
+            ctx.close('bindown.block-sum', np.asarray(detector.bindown(x, farg, 'sum'), dtype=float), want, key('C16/bindown/sum/block-sum', 's'),
+                      'bindown(sum) is not the sum over each block', desc, rtol=rt, scale=sc)
+            ctx.close('bindown.block-sum', np.asarray(detector.bindown(x, farg, ['avg', 'mean', 'average'][k % 3]), dtype=float), want / nblk,
+                      key('C16/bindown/avg/block-mean', 'a'), 'bindown(avg) is not the mean over each block', desc, rtol=rt, scale=sc / nblk)
+            ta = detector.tile(y, farg, 'avg')
+            wt = ref.tile_ref(y0, f) * s
+            ctx.close('tile.reference', np.asarray(ta, dtype=float), wt, key('C16/tile/avg/not-repeat', 't'), 'tile(avg) is not each sample repeated', desc,
+                      rtol=rt if dt == 'float32' else 0.0)
+            ts = detector.tile(y, farg, 'sum')
+            ctx.close('tile.reference', np.asarray(ts, dtype=float), wt / nblk, key('C16/tile/sum/not-repeat-over-count', 't'),
+                      'tile(sum) is not repeat/prod(factor)', desc, rtol=rt)
+            ctx.close('tile.roundtrip', np.asarray(detector.bindown(ts, farg, 'sum'), dtype=float), y0 * s, key('C16/tile/bindown(tile)!=identity/sum', 'r'),
+                      'bindown_sum(tile_sum(y)) != y', desc, rtol=rt)
+    ctx.note('bin_structural', {'axis_lengths': lengths, 'factors': '1, the axis length, proper divisors', 'scales': s_list, 'cases': len(cases)})
+
+
+def bayer_magnitudes(ctx):
+    """Classes G / I for the Bayer routines: mosaics scaled by 2^-40 .. 2^40 (exact scaling) and by decades 1e-12 .. 1e12, shapes from
+    2 x 2 over 2 x N / N x 2 lines to >= 500 samples per axis: decomposite / recomposite round trip bit for bit, demosaic_malvar
+    linear in the mosaic (and flat fields preserved at every magnitude), white balance gains 1e-9 .. 1e9, safe white balance
+    invariant under rescaling mosaic and saturation level together."""
+    from prysm import bayer
+    shapes = [(2, 2), (2, 4), (4, 2), (2, 16), (16, 2), (6, 8), (8, 8), (10, 6), (2, 514), (502, 2), (64, 66)] + ctx.pick([], [(500, 502), (130, 258)])
+    scales = [2.0 ** -40, 1e-12, 1e-9, 1e-6, 2.0 ** -10, 1e3, 2.0 ** 20, 1e9, 1e12, 2.0 ** 40]
+    rs = np.random.default_rng([ctx.seed, 16906])
+    for _ in range(ctx.pick(0, 6000)):
+        shapes.append((2 * int(rs.integers(1, 40)), 2 * int(rs.integers(1, 40))))
+    k = -1
+    for shape in shapes:
+        for cfa in ('rggb', 'bggr'):
+            for s in scales:
+                k += 1
+                if not ctx.mine(k):
+                    continue
+                if not ctx.quick and len(shapes) > 13 and shape not in shapes[:13] and k % 3:
+                    continue
+                rng = np.random.default_rng([ctx.seed, 16907, k])
+                dt = 'float32' if k % 5 == 2 else 'float64'
+                m1 = rng.integers(1, 4096, shape).astype(float)
+                m = (m1 * s).astype(dt)
+                m1 = m1.astype(dt)
+                pow2 = float(np.log2(s)).is_integer()
+                reg = regime(s)
+                rt = 1e-4 if dt == 'float32' else 1e-12
+                desc = {'wl': 'bayer-magnitudes', 'shape': list(shape), 'cfa': cfa, 'scale': s, 'dtype': dt, 'k': k,
+                        'class': f'bayer-scale:{cfa}:{reg}:{dt}:{"line" if min(shape) == 2 else "big" if max(shape) >= 500 else "area"}'}
+                ctx.case(desc)
+                with ctx.guard(f'C16/bayer/{cfa}/scale:{reg}', desc):
+                    ctx.observe('bayer.scale-law')
+                    m0 = m.copy()
+                    back = bayer.recomposite_bayer(*bayer.decomposite_bayer(m, cfa), cfa=cfa)
+                    ctx.equal('bayer.roundtrip', back, m0, f'C16/bayer/roundtrip/{cfa}', 'recomposite_bayer(decomposite_bayer(m)) != m', desc)
+                    rgb, rgb1 = bayer.demosaic_malvar(m, cfa), bayer.demosaic_malvar(m1, cfa)
+                    ctx.close('bayer.scale-law', np.asarray(rgb, dtype=float), np.asarray(rgb1, dtype=float) * s,
+                              f'C16/bayer/malvar/{cfa}/scale:{reg}/not-linear', 'demosaic_malvar(s * m) != s * demosaic_malvar(m)', desc,
+                              rtol=0.0 if (pow2 and dt == 'float64') else rt)
+                    flat = bayer.demosaic_malvar(np.full(shape, 7.0 * s, dtype=dt), cfa)
+                    ctx.close('bayer.malvar-flat-field', np.asarray(flat, dtype=float), np.full(shape + (3,), float(np.asarray(7.0 * s, dtype=dt))),
+                              f'C16/bayer/malvar/{cfa}/scale:{reg}/flat-field-not-preserved',
+                              'demosaic_malvar of a constant mosaic is not constant at this magnitude', desc, rtol=rt)
+                    di, di1 = bayer.demosaic_deinterlace(m, cfa), bayer.demosaic_deinterlace(m1, cfa)
+                    ctx.close('bayer.scale-law', np.asarray(di, dtype=float), np.asarray(di1, dtype=float) * s, f'C16/bayer/deinterlace/{cfa}/scale:{reg}/not-linear',
+                              'demosaic_deinterlace(s * m) != s * demosaic_deinterlace(m)', desc, rtol=0.0 if (pow2 and dt == 'float64') else rt)
+                    ctx.require('bayer.input-untouched', np.array_equal(m, m0), f'C16/bayer/{cfa}/input-mutated', 'a Bayer routine modified the mosaic it was given', desc)
+                    if dt != 'float64':
+                        continue
+                    # white balance: gains over many decades (the contract judges site and constancy); safe mode in rescaled units
+                    g = [float(v) for v in 10 ** rng.uniform(-9, 9, 4)]
+                    mm = m.copy()
+                    bayer.wb_prescale(mm, *g, cfa=cfa)
+                    wantw = m0.copy()
+                    for c_, gg in zip(('r', 'g1', 'g2', 'b'), g):
+                        r0, c0 = ref.SITES[cfa][c_]
+                        wantw[r0::2, c0::2] *= gg
+                    ctx.close('bayer.scale-law', mm, wantw, f'C16/bayer/wb_prescale/{cfa}/scale:gains/gain-not-applied',
+                              'wb_prescale does not multiply each colour site by its gain (gains 1e-9 .. 1e9)', desc, rtol=1e-14)
+                    gs = [float(v) for v in rng.uniform(0.3, 3.0, 4)]
+                    sat1 = float(rng.uniform(0.2, 1.5) * m1.max())
+                    ma, mb = m.copy(), m1.copy()
+                    bayer.wb_prescale(ma, *gs, cfa=cfa, safe=True, saturation=sat1 * s)
+                    bayer.wb_prescale(mb, *gs, cfa=cfa, safe=True, saturation=sat1)
+                    ctx.close('bayer.scale-law', ma, mb * s, f'C16/bayer/wb_prescale/{cfa}/scale:{reg}/safe-not-unit-invariant',
+                              'safe wb_prescale of (s * mosaic, s * saturation) != s * safe wb_prescale(mosaic, saturation)', desc, rtol=1e-12)
+                    ra, rb = rgb.copy(), rgb1.copy()
+                    bayer.wb_postscale(ra, *gs[:3], safe=True, saturation=sat1 * s)
+                    bayer.wb_postscale(rb, *gs[:3], safe=True, saturation=sat1)
+                    ctx.close('bayer.scale-law', ra, rb * s, f'C16/bayer/wb_postscale/scale:{reg}/safe-not-unit-invariant',
+                              'safe wb_postscale of (s * rgb, s * saturation) != s * safe wb_postscale(rgb, saturation)', desc, rtol=1e-12)
+    ctx.note('bayer_magnitudes', {'scales': scales, 'shapes': len(shapes)})
+
+
+def hardening3_workload(ctx):
+    expose_magnitudes(ctx)
+    expose_specials(ctx)
+    expose_frames(ctx)
+    bin_structural(ctx)
+    bayer_magnitudes(ctx)
+
+
 def run(ctx):
     global CTX
     CTX = ctx
@@ -1649,6 +2163,7 @@ def run(ctx):
         expose_bin_workload(ctx)
         bayer_workload(ctx)
         forms_workload(ctx)
+        hardening3_workload(ctx)
     finally:
         mathops.np._srcmodule = real
         config.precision = old
